@@ -176,7 +176,7 @@ def gen_c04(rng, tier):
         frames += [w.fip(v6, 58 if v6 else 1, (icmp6(128, 0, struct.pack('>HH', i, 0xffff) + b'\x00\x01', *w.addrs(True)) if v6 else icmp(8, 0, struct.pack('>HH', i, 0xffff) + b'\x00\x01')))
                    for i in range(0, 65536, 5) for v6 in (False, True)]
         cases.append(case(w, frames, ['checksum-sweep']))
-    return cases + gen_sticky(rng, tier)
+    return cases + gen_sticky(rng, tier) + sweep_cases(rng)
 
 
 def stun_sweep_frames(rng, w, dports=(3478, 65535, 0), flagset=None):
@@ -253,6 +253,7 @@ def gen_c02(rng, tier):
         frames.append(w.f6(proto, icmp6(128, 0, b'abcdefgh', w.cl6, w.my6) + bytes(20)))
     cases.append(case(w, frames, ['ethertype-sweep', 'protocol-sweep']))
     cases.append(case(w, ethertype_frames(rng, w), ['ethertype-runts-and-tags']))
+    cases += sweep_cases(rng)
     # destination-address sweep: every kind of answerable request, addressed to group / broadcast / foreign /
     # second-self addresses, on every accepted destination MAC class, with and without a self-IP list
     for selfmode in (True, False):
@@ -345,7 +346,7 @@ def gen_c06(rng, tier):
             # SYNs whose source is itself a handled address (another one, or the destination: LAND-shaped) -- still SYNs
             frames += [mk(d2, d, sport, dport), mk(d, d, sport, dport), mk(d, d2, sport, dport)]
         cases.append(case(w, frames, ['syn-retransmit', 'syn-sweep']))
-    return cases + gen_sticky(rng, tier, n=(40 if tier == 'quick' else 1000))
+    return cases + gen_sticky(rng, tier, n=(40 if tier == 'quick' else 1000)) + sweep_cases(rng)
 
 
 def gen_flows(rng, tier, nflows=4, steps=60):
@@ -691,7 +692,63 @@ def gen_c20(rng, tier):
         fc['ops'][0][1]['logger'] = rng.choice(['console', 'logfmt'])
         fc['tags'].append('logger:' + fc['ops'][0][1]['logger'])
         cases.append(fc)
-    return cases
+    return cases + sweep_cases(rng, 'console') + sweep_cases(rng, 'logfmt')
+
+
+def refix(frame):
+    """recompute the IPv4 header checksum and the TCP checksum of a well-formed frame after a header field was patched"""
+    f = bytearray(frame)
+    ety = struct.unpack('>H', f[12:14])[0]
+    if ety == 0x0800:
+        ihl = (f[14] & 15) * 4
+        f[24:26] = b'\0\0'
+        f[24:26] = struct.pack('>H', csum16(bytes(f[14:14 + ihl])))
+        proto, l4, src, dst = f[23], 14 + ihl, bytes(f[26:30]), bytes(f[30:34])
+    elif ety == 0x86dd:
+        proto, l4, src, dst = f[20], 54, bytes(f[22:38]), bytes(f[38:54])
+    else:
+        return bytes(f)
+    if proto == 6 and len(f) >= l4 + 20:
+        f[l4 + 16:l4 + 18] = b'\0\0'
+        f[l4 + 16:l4 + 18] = struct.pack('>H', csum16(pseudo(src, dst, 6, len(f) - l4) + bytes(f[l4:])))
+    return bytes(f)
+
+
+def field_sweep(rng, w):
+    """one header field at a time: every kind of answerable request (echo, NS, SYN, data segment behind a valid cookie, DNS / STUN
+    datagram, over IPv4 and IPv6) with one field of its IP or TCP header set to boundary values -- TOS / traffic class, flow label,
+    identification, DF / MF / reserved flag, fragment offset, TTL / hop limit, version nibble, TCP reserved bits and NS, window,
+    urgent pointer -- checksums recomputed"""
+    dns = struct.pack('>HHHHHH', 7, 0x0100, 1, 0, 0, 0) + b'\x01a\x00' + struct.pack('>HH', 1, 1)
+    stun = b'\x00\x01\x00\x00' + rng.bytes(16)
+    base = []
+    for v6 in (False, True):
+        s_, d_ = w.addrs(v6)
+        base += [w.fip(v6, 58 if v6 else 1, icmp6(128, 0, b'abcdefgh', s_, d_) if v6 else icmp(8, 0, b'abcdefgh')),
+                 w.tcp_frame(v6, 4000, 80, 1, 0, 2), w.data_frame(v6, 4001, 80, 7, b'GET / HTTP/1.1\r\n\r\n'),
+                 w.udp_frame(v6, 4002, 53, dns), w.udp_frame(v6, 4003, 3478, stun)]
+    base.append(eth(w.mac, w.cl_mac, 0x86dd, ipv6(w.cl6, w.my6, 58, icmp6(135, 0, bytes(4) + w.my6 + b'\x01\x01' + w.cl_mac, w.cl6, w.my6), hlim=255)))
+    out = []
+    for f in base:
+        out.append(f)
+        v6 = f[12:14] == b'\x86\xdd'
+        if v6:
+            patches = [(14, x) for x in (b'\x6f\xf0\x00\x00', b'\x60\x0f\xff\xff', b'\x6f\xff\xff\xff', b'\x50\x00\x00\x00', b'\x70\x00\x00\x00', b'\x60\x00\x00\x01')]
+            patches += [(21, bytes([x])) for x in (0, 1, 2, 254, 255)]
+            l4, proto = 54, f[20]
+        else:
+            patches = [(15, bytes([x])) for x in (1, 3, 0xfc, 0xff)] + [(18, x) for x in (b'\x00\x00', b'\xff\xff')]
+            patches += [(20, x) for x in (b'\x40\x00', b'\x80\x00', b'\xc0\x00', b'\x20\x00', b'\x00\x01', b'\x1f\xff', b'\x3f\xff')]
+            patches += [(22, bytes([x])) for x in (0, 1, 2, 254, 255)] + [(14, bytes([x])) for x in (0x55, 0x65, 0x35)]
+            l4, proto = 34, f[23]
+        if proto == 6:
+            patches += [(l4 + 12, bytes([f[l4 + 12] | x])) for x in (1, 2, 4, 8, 0x0f)] + [(l4 + 14, x) for x in (b'\x00\x00', b'\x00\x01', b'\xff\xff')]
+            patches += [(l4 + 18, x) for x in (b'\xff\xff', b'\x00\x01')] + [(l4 + 13, bytes([f[l4 + 13] | 0x20]))]
+        for off, val in patches:
+            g = bytearray(f)
+            g[off:off + len(val)] = val
+            out.append(refix(bytes(g)))
+    return out
 
 
 def l24_request_sweep(rng, w):
@@ -713,7 +770,16 @@ def l24_request_sweep(rng, w):
             frames.append(eth(dm, w.cl_mac, 0x0800, ipv4(s4, w.my4, 1, icmp(8, 0, b'abcdefgh'))))
             frames.append(eth(dm, w.cl_mac, 0x0800, ipv4(s4, w.my4, 6, lib.tcp(4000, 80, 1, 0, 2, src=s4, dst=w.my4))))
             frames.append(eth(dm, w.cl_mac, 0x0806, arp(1, w.cl_mac, s4, bytes(6), w.my4)))
-    return frames
+    return frames + field_sweep(rng, w)
+
+
+def sweep_cases(rng, logger=None):
+    """the request x MAC x source sweep and the one-field-at-a-time header sweep, with and without a self-IP list"""
+    out = []
+    for selfmode in (True, False):
+        w = World(rng, selfmode=selfmode, denymode=False, logger=logger or 'none')
+        out.append(case(w, l24_request_sweep(rng, w), ['request-mac-source-sweep', 'header-field-sweep'] + (['logger:' + logger] if logger else [])))
+    return out
 
 
 def gen_c05(rng, tier):
@@ -1109,7 +1175,7 @@ PROPS = {
                      'Neighbour Solicitations (handled/unhandled target, options, truncated); non-trivial = frame for which C05 prescribes an answer or silence'),
     'C06': dict(gen=gen_c06, judge='C06', proj=proj_headers, release=True,
                 rule='all 512 flag words x boundary sequence numbers x IPv4/IPv6 x with/without payload after a non-empty history; non-trivial = delivered segment with SYN set'),
-    'C07': dict(gen=lambda rng, tier: gen_flows(rng, tier) + gen_sticky(rng, tier), judge='C07', proj=proj_headers, release=True,
+    'C07': dict(gen=lambda rng, tier: gen_flows(rng, tier) + gen_sticky(rng, tier) + sweep_cases(rng), judge='C07', proj=proj_headers, release=True,
                 rule='scripted interleavings of 1-4 flows (right/wrong/zero ack, wrap-around, FIN, RST, ACK, noise); non-trivial = segment delivered to TCP and compared with the reference connection model'),
     'C09': dict(gen=gen_c09, judge='C09', proj=lambda r: None, table=True,
                 rule='hostile histories (SYN floods, wrong-ack data, FIN/RST/ACK, UDP/ICMP/ARP noise) with a table-size probe after every frame; non-trivial = frame delivered to TCP'),
